@@ -599,7 +599,10 @@ def obj2bytes(obj):
     """Bytes representation of an object for hashing"""
     if isinstance(obj, str):
         return obj.encode("utf-8")
-    elif isinstance(obj, (bool, int, float, np.bool_)):
+    elif isinstance(obj, (bool, int, float,
+                          np.bool_, np.integer, np.floating)):
+        # (numpy scalars are e.g. returned when loading fit properties
+        # from a rating container)
         return str(float(obj)).encode("utf-8")
     elif obj is None:
         return b"none"
